@@ -4,13 +4,15 @@ import itertools
 from .refmodels.query import MISSING
 
 # key paths: id -> (namespace, nodes)
-PATHS = {"A": ("sp", ("a",)), "B": ("sp", ("b", "c")), "X": ("doc", ("x",)), "N": ("doc", ("n", "m"))}
+PATHS = {"A": ("sp", ("a",)), "B": ("sp", ("b", "c")), "X": ("doc", ("x",)), "N": ("doc", ("n", "m")),
+         # keys whose first component merely STARTS with a namespace name
+         "S": ("sp", ("spin", "up")), "D": ("sp", ("docs", "k"))}
 
 # full value universe (atom level)
 U_FULL = [1, 1.0, True, 2, 2.5, None, "1", "ab", [1, 2], {"c": 1}, {"c": "x"}, MISSING, 0, False, -2, -2.0]
 # reduced universes (combination levels)
 U_RED = {"A": [1, 1.0, True, "1", [1, 2], MISSING], "B": [1, "x", MISSING], "X": [1, 2.5, MISSING],
-         "N": [1, MISSING]}
+         "N": [1, MISSING], "S": [1, "x", MISSING], "D": [1, MISSING]}
 U_COLLIDE = [1, 1.0, True, "1", MISSING, -2, -2.0]
 
 ARGS = {
@@ -48,6 +50,7 @@ R30 = [
     ("B", None, 1), ("B", "$ne", "x"), ("B", "$exists", True), ("B", "$type", "str"), ("B", "$lt", 2),
     ("X", None, 1), ("X", "$gte", 2.5), ("X", "$exists", False), ("X", "$type", "float"), ("X", "$in", [1, 2.5]),
     ("N", None, 1), ("N", "$exists", True), ("N", "$ne", 1),
+    ("S", None, 1), ("S", "$exists", True), ("D", None, 1), ("D", "$lt", 2),
 ]
 R8 = [("A", None, 1), ("A", "$type", "bool"), ("A", "$exists", False), ("A", "$gt", 1),
       ("B", None, "x"), ("X", "$gte", 2.5), ("X", "$exists", True), ("N", "$ne", 1)]
